@@ -337,15 +337,23 @@ Proof.
 intro Hne. unfold edit_distance.
 destruct (Z.eqb_spec maxdiff (-1)) as [|_]; [contradiction|]. cbn [negb andb].
 pose proof (lev_ge_diff A eqb s t) as [Hg1 Hg2].
-destruct (Z.gtb_spec (Z.of_nat (absdiff (length s) (length t))) maxdiff) as [Hfar|Hnear].
-- unfold absdiff in *. split; intro H; lia.
-- destruct (trim eqb s t) as [s' t'] eqn:E.
-  destruct (trim_spec A eqb eqb_spec _ _ _ _ E) as [Hl Hn].
-  assert (Hd : absdiff (length s') (length t') <= Z.to_nat maxdiff) by (unfold absdiff in *; lia).
-  destruct (banded_spec s' t' (Z.to_nat maxdiff) Hd) as [B1 B2]. rewrite Hl in B1, B2.
-  split; intro H.
-  + apply B1. lia.
-  + specialize (B2 ltac:(lia)). lia.
+pose proof (lev_le_max A eqb s t) as Hmax.
+destruct (Z.geb_spec maxdiff (Z.of_nat (Nat.max (length s) (length t)))) as [Hwide|Hnarrow].
+- (* the band is at least as wide as the longer string: unbanded computation *)
+  cbn [Z.eqb negb andb].
+  destruct (trim eqb s t) as [s' t'] eqn:E.
+  destruct (trim_spec A eqb eqb_spec _ _ _ _ E) as [Hl _].
+  rewrite (dist_is_lev A eqb), Hl. split; intro H; [reflexivity|lia].
+- destruct (Z.eqb_spec maxdiff (-1)) as [|_]; [contradiction|]. cbn [negb andb].
+  destruct (Z.gtb_spec (Z.of_nat (absdiff (length s) (length t))) maxdiff) as [Hfar|Hnear].
+  + unfold absdiff in *. split; intro H; lia.
+  + destruct (trim eqb s t) as [s' t'] eqn:E.
+    destruct (trim_spec A eqb eqb_spec _ _ _ _ E) as [Hl Hn].
+    assert (Hd : absdiff (length s') (length t') <= Z.to_nat maxdiff) by (unfold absdiff in *; lia).
+    destruct (banded_spec s' t' (Z.to_nat maxdiff) Hd) as [B1 B2]. rewrite Hl in B1, B2.
+    split; intro H.
+    * apply B1. lia.
+    * specialize (B2 ltac:(lia)). lia.
 Qed.
 
 (* the executable form of the contract used by the correspondence check is the same statement *)
